@@ -55,7 +55,8 @@ CHECKS = {
         "tolerance bound, and every atom is carried onto an atom of its species within 4*symprec under periodic boundary conditions. Mechanism theorems for all "
         "inputs: conj_exact (conjugation by the primitive-to-input matrix preserves det, carries the metric defect by congruence and leaves the Cartesian "
         "operator unchanged) and expectedOps_conj. The quantifier over crystals/cells/tolerances is explored: the oracle runs on the real outputs for generated crystals of "
-        "all 530 settings, re-based/shifted/rotated cells, supercells (random HNFs up to index 12 and the skew family that exposed the conjugation defect), noise."),
+        "all 530 settings, re-based/shifted/rotated cells, supercells (random HNFs up to index 12 and the skew family that exposed the conjugation defect), noise, and pseudo-symmetric crystals (one axis stretched by a few symprec: whatever subgroup is reported, every "
+        "operation must preserve the metric)."),
   design_ref="DESIGN.md §3 C01", note=PIPE_NOTE,
   technique="Lean 4 verified oracle (checker = [] <-> Spec, proved) run on implementation outputs + algebraic mechanism theorems"),
  "C02": dict(
@@ -87,7 +88,7 @@ CHECKS = {
   text=("Verified oracle: `checkC06` is proved sound and complete (Props/C06.lean) for: every tabulated operation (Lean Hall-symbol model on the regenerated table, incl. centering translations) of the reported "
         "Hall number maps every std_cell site onto a site of its species within 1e-8 A; std lattice = prim_std lattice x integer matrix of determinant = centering order (= the tabulated "
         "centering matrix outside the monoclinic system); atom counts; prim_std_cell has no non-trivial pure translation; upper-triangular orientation for undistorted input; Pearson symbol from the "
-        "regenerated classification tables. The Hall-symbol model is tied to the Rust parser by exhaustive correspondence on all 530+1651 table strings. Explored over all settings, both "
+        "regenerated classification tables and, independently, from the ITA number and the lattice letter of the Hall symbol. The Hall-symbol model is tied to the Rust parser by exhaustive correspondence on all 530+1651 table strings. Explored over all settings, both "
         "conventions, requested settings, noise <= 5% symprec."),
   design_ref="DESIGN.md §3 C06", note=PIPE_NOTE,
   technique="Lean 4 verified oracle using the Lean Hall-symbol model on regenerated tables"),
@@ -96,14 +97,14 @@ CHECKS = {
   text=("Theorems about the Lean model of iterative_symmetry_search/ToleranceHandler for every behaviour of the attempts (Props/C09.lean): if the first attempt succeeds the returned tolerances are "
         "exactly the requested ones; the returned tolerances are those of the last attempt and that attempt succeeded; at most MAX_HANDLER*MAX_TRIALS = 64 attempts (constants regenerated). "
         "Decided on explored inputs: noisy twins (<= 5% symprec + strain) and uniformly scaled twins (1e-2..1e3) give the same number, Hall number, operation count and orbit partition as "
-        "the undistorted crystal, and the returned tolerances equal the requested ones, positive. noise_accept / rough_match_unique of the design are not proved."),
+        "the undistorted crystal (incl. supercells and shear twins with an explicit radian tolerance just wide enough for the allowed strain), and the returned tolerances equal the requested ones, positive. noise_accept / rough_match_unique of the design are not proved."),
   design_ref="DESIGN.md §3 C09", note=PIPE_NOTE,
   technique="Lean 4 proof about the tolerance-handler state machine + metamorphic twins judged by the Lean oracle"),
  "C10": dict(
   category="proof",
   text=("Oracle-level theorems (Props/C10.lean): for a request Setting::HallNumber(h) the Lean oracle reports (i) a dataset returned although h is out of 1..=530 or of another type than the crystal, "
         "(ii) a refusal of a matching request, (iii) a returned Hall number different from h; out-of-range is exactly outside 1..=530 of the regenerated table. The std_cell invariance under the tabulated "
-        "operations of h is the verified C06 clause. Explored: all 530 Hall numbers on matching crystals (own + re-described), neighbouring non-matching types, out-of-range numbers."),
+        "operations of h is the verified C06 clause, counted for C10 on explicit requests. Explored: all 530 Hall numbers on matching crystals (own + re-described), neighbouring non-matching types, out-of-range numbers."),
   design_ref="DESIGN.md §3 C10", note=PIPE_NOTE,
   technique="Lean 4 oracle theorems over regenerated tables + exhaustive sweep of the 530 requests on generated crystals"),
  "C14": dict(
@@ -134,7 +135,8 @@ CHECKS = {
         "so in the re-described crystal for origin shift, added lattice vectors, rigid rotation, uniform scaling (distance scaled), and integer change of basis; the mirror-partner map on ITA numbers is an "
         "involution moving exactly the 11 enantiomorphic pairs. The statement about the implementation's answers is metamorphic exploration: the real code runs on a crystal and on a random word of 1-5 "
         "re-descriptions (incl. supercell and mirror image); number, Hall number, Pearson symbol, operations per primitive cell (no-supercell pairs), orbit partition through the recorded site map, Wyckoff "
-        "multiplicity and orientation-free site-symmetry symbol per atom are extracted by the Lean driver and must agree."),
+        "multiplicity and orientation-free site-symmetry symbol per atom are extracted by the Lean driver and must agree. Also distorted crystals (atoms displaced by 0.25-0.45 symprec, premise validated by a brute-force "
+        "residual profile) with reordered atoms, and a face scan (origin placed so that an atom lies just inside / outside a cell face), which exposed the kd-tree padding defect repaired in e70d4e6."),
   design_ref="DESIGN.md §3 C04",
   note=("Trusted: generator site map / re-description record, brute-force premise validation, Lean table lookups for multiplicities. Invariance of the implementation's answer for ALL inputs is not proved "
         "(it would follow from completeness of the search, assumptions A-bravais/A-coeff)."),
@@ -149,7 +151,8 @@ CHECKS = {
         "multiplicity(letter) = #ops/|Stab|, order(point group named by the symbol) = |Stab|, and some atom of the orbit lies on the tabulated coordinate subspace (exhibited n, y). "
         "C16(i) over all 3467 regenerated rows, kernel-decided: every coordinate string parses, generic orbit size = multiplicity, #ops/multiplicity = order of the named point group, letters contiguous, "
         "equal-multiplicity letters generically disjoint. Parser model tied to WyckoffPositionSpace::new by exhaustive correspondence. Explored: atoms on every second (quick) / every (thorough) "
-        "tabulated position of every Hall setting + a general-position species, re-described cells, supercells."),
+        "tabulated position of every Hall setting + a general-position species, re-described cells, supercells, explicit Hall-number requests, and positions with a free parameter close to a special value "
+        "(orbit atoms clustering at 10 symprec .. 1.8 sqrt(symprec)); clause W5: same label <=> related by a tabulated operation in std_cell."),
   design_ref="DESIGN.md §3 C07", note=PIPE_NOTE + " Completeness of the subspace clause (no false alarm) is argued, not proved; moyo's SNF-based assign_wyckoff_position is not modelled.",
   technique="Lean 4 verified oracle (stabilizers in std_cell) + kernel-decided Wyckoff table theorems + parser/orbit-labelling correspondence"),
 
@@ -198,7 +201,7 @@ CHECKS = {
   text=("Verified oracle (Props/C11.lean): checkC11_iff: the Lean checker is silent iff every reported (R,t,theta) carries every atom onto an atom of its species within 4*symprec whose moment equals the transformed moment "
         "within 4*mag_symprec (both moment kinds, both actions; moment_action proves the model of act_rotation/act_time_reversal incl. the rounded determinant), the set is closed with inverses modulo translations, and it equals "
         "the generating magnetic group conjugated by the recorded re-description; timereversal_index: the theta-free part of a closed finite set is a subgroup of index 1 or 2. Explored: structures generated from a seed-dependent "
-        "third of the 1651 magnetic groups (all of them in thorough) x {collinear, non-collinear} x {polar, axial}, re-described cells, premise validated by an independent brute-force magnetic symmetry search."),
+        "third of the 1651 magnetic groups (all of them in thorough) x {collinear, non-collinear} x {polar, axial}, re-described cells, premise validated by an independent brute-force magnetic symmetry search; plus weakly canted moments (judged by the truth-independent clauses) and noise of 5 % of the tolerances."),
   design_ref="DESIGN.md §3 C11", note=PIPE_NOTE,
   technique="Lean 4 verified oracle (iff) + moment-action and index theorems, run on generated magnetic structures"),
  "C12": dict(
